@@ -58,6 +58,7 @@ static VP_TLS int in_program;
  * from inside the wrapped epoll_wait (outside any callback, exactly like between two dispatch calls), and the Dispatch step that
  * stops the loop is what m_ctx_loop() does by itself before it returns the quit code. */
 static unsigned long long bt_ns = 7000000ULL;
+static int bad_keys[16];              /* VP_BADKEYS: pid keys that name no process */
 static int loop_mode;
 static VP_TLS int in_loop;
 static VP_TLS int prog_loopable;
@@ -381,8 +382,16 @@ static void project(char *buf, size_t n, const char *topdesc) {
     /* m_ctx() is NULL inside callbacks of DENY_CTX modules: then only what the module handles show is projected */
     if (!cn && depth == 0) k += snprintf(buf + k, n - k, "ctx:none,0,0,0,t0");
     else if (!c) k += snprintf(buf + k, n - k, "ctx:hidden");
-    else k += snprintf(buf + k, n - k, "ctx:%s,%ld,%zu,%d,t%d", c->state == M_CTX_LOOPING ? "looping" : "idle", (long)m_ctx_len(), c->stats.running_modules, (int)c->quit,
+    else {
+        /* module counts as the context reports them: through m_ctx_stats() while it loops (the call is refused otherwise) */
+        long nmod = (long)m_ctx_len(); size_t nrun = c->stats.running_modules;
+        if (c->state == M_CTX_LOOPING) {
+            m_ctx_stats_t st; memset(&st, 0, sizeof st);
+            if (m_ctx_stats(&st) == 0) { nmod = (long)st.num_modules; nrun = st.running_modules; } else nrun = 777;
+        }
+        k += snprintf(buf + k, n - k, "ctx:%s,%ld,%zu,%d,t%d", c->state == M_CTX_LOOPING ? "looping" : "idle", nmod, nrun, (int)c->quit,
                        !c->tick.src ? 0 : c->tick.src->tmr_src.its.ns == TMR_NS[1] ? 1 : c->tick.src->tmr_src.its.ns == TMR_NS[2] ? 2 : 9);
+    }
     for (int i = 0; i < nmods; i++)
         if (H[i] && m_mod_state(H[i]) != M_MOD_ZOMBIE)
             k += snprintf(buf + k, n - k, "|%s:%s:%d:%d:%d:%d:%d:%d:%d", LN[i], stname(H[i]), mailbox_len(H[i]), (int)m_queue_len(H[i]->batch.events),
@@ -794,7 +803,7 @@ static void exec_action(gw_edge *e) {
             static VP_TLS unsigned path_calls;
             m_src_path_t pt = {PATHS[key], reg ? (IN_CREATE | (path_calls++ % 2 ? IN_DELETE : 0)) : 0};
             r = reg ? m_mod_src_register_path(H[m], &pt, fl, ud) : m_mod_src_deregister_path(H[m], &pt); }
-        else if (!strcmp(kd, "pid")) { m_src_pid_t pd = {kid_of(key), 0}; r = reg ? m_mod_src_register_pid(H[m], &pd, fl, ud) : m_mod_src_deregister_pid(H[m], &pd); }
+        else if (!strcmp(kd, "pid")) { m_src_pid_t pd = {bad_keys[key] ? 0x3ffffff0 : kid_of(key), 0};    /* (bad key: a pid beyond pid_max, no such process) */ r = reg ? m_mod_src_register_pid(H[m], &pd, fl, ud) : m_mod_src_deregister_pid(H[m], &pd); }
         else if (!strcmp(kd, "task")) {
             task_slot *t = &TK[m][key];
             m_src_task_t tk = {key, task_fn};
@@ -1190,6 +1199,7 @@ int main(int argc, char **argv) {
     loop_mode = getenv("VP_LOOPMODE") && atoi(getenv("VP_LOOPMODE"));
     task_mode = getenv("VP_TASKS") && atoi(getenv("VP_TASKS"));
     pool_size = getenv("VP_POOLSZ") ? atoi(getenv("VP_POOLSZ")) : 0;
+    if (getenv("VP_BADKEYS")) for (const char *c = getenv("VP_BADKEYS"); *c; c++) if (*c >= '0' && *c <= '9') bad_keys[*c - '0'] = 1;
     if (getenv("VP_BT_NS")) bt_ns = strtoull(getenv("VP_BT_NS"), NULL, 10);   /* batch timeout period (tbbte: equal to the refill period of rate id 1) */
     sem_init(&task_notified, 0, 0);
     for (int i = 0; i < NM; i++) for (int k = 0; k < NTK; k++) { snprintf(TK[i][k].ud, sizeof TK[i][k].ud, "%d", k); TK[i][k].m = i; TK[i][k].key = k; sem_init(&TK[i][k].gate, 0, 0); }
